@@ -201,6 +201,17 @@ def c09_bc(ctx, table):
     ctx.check_eq('bc_scaling', got * bc, cd * F(2.08551e-04), rel=1e-12, abs=1e-15)
     ctx.check_eq('retardation_constant', got * bc, cd * k, rel=1e-5, abs=1e-12)
     ctx.check('table_is_models', calc.table_data is dm.drag_table)
+    # the same solver object reused for a model that shares the table but has another BC (copy / in-place change of BC)
+    import copy
+    bc2 = ctx.real('bc2', 1e-4, 100)
+    dm2 = copy.copy(dm)
+    dm2.BC = bc2
+    shot2 = p.Shot(p.Weapon(), p.Ammo(dm2, p.Velocity.FPS(2700)), atmo=_atmo(p))
+    calc._init_trajectory(shot2)
+    ctx.check_eq('bc_of_the_current_shot_on_a_reused_solver', calc.drag_by_mach(M) * bc2, cd * F(2.08551e-04), rel=1e-12, abs=1e-15)
+    dm.BC = bc2
+    calc._init_trajectory(shot)
+    ctx.check_eq('bc_of_the_current_shot_on_a_reused_solver', calc.drag_by_mach(M) * bc2, cd * F(2.08551e-04), rel=1e-12, abs=1e-15, info={'how': 'BC changed in place'})
 
 
 _ATMO = []
